@@ -366,7 +366,10 @@ class Rig:
             if k == "lost":
                 loop.call_at(fa["t"], self._lose, None)
             elif k == "lost-exc":
-                loop.call_at(fa["t"], self._lose, exc.TransportError("scripted connection loss"))
+                # what a serial transport reports when the port dies: not an exception of the library's own family
+                from serial import SerialException  # type: ignore[import-untyped]
+
+                loop.call_at(fa["t"], self._lose, SerialException("scripted: device reports readiness to read but returned no data"))
             elif k == "pause":
                 loop.call_at(fa["t"], proto.pause_writing)
             elif k == "resume":
